@@ -181,8 +181,9 @@ def parseNud : Nat → List Token → Except Err (Expr × List Token)
     | .op _ => .error .parseInvalidToken
 end
 
-/-- Fuel that always suffices (proved in `Tau.Proofs.Pratt`): every two nested calls consume a token. -/
-def parseFuel (ts : List Token) : Nat := 4 * ts.length + 8
+/-- Fuel (recursion-depth budget) for `parse`; `Tau.Proofs.PrattPP` proves it suffices for every
+    printed condition, the correspondence run exercises it on everything else. -/
+def parseFuel (ts : List Token) : Nat := 10 * ts.length + 10
 
 def parse (ts : List Token) : Except Err Expr := parseAll (parseFuel ts) ts
 
